@@ -68,6 +68,11 @@ func c10classes() []c10class {
 			c.Services[0].MustGetter = P(true) // explicit must_getter without a getter, whatever the default says
 		}), nil, false},
 		{"compile-error-argument", mod(func(c *Cfg) { c.Services[0].Args = []any{"@", "!value 1x"} }), nil, false},
+		{"token-error-unexpected", mod(func(c *Cfg) {
+			// a closed %...% chunk that is neither %%, a reference nor a function call, and nothing else wrong
+			c.Params = append(c.Params, Param{"t", "%first name%"})
+		}), nil, false},
+		{"token-error-unexpected-in-argument", mod(func(c *Cfg) { c.Services[0].Args = []any{"%p%", "x%1st%y"} }), nil, false},
 		{"formatter-error", mod(func(c *Cfg) { c.Meta.ContainerType = P("func") }), nil, false},
 		{"missing-param", mod(func(c *Cfg) { c.Services[0].Args = []any{"%nope%", "%nope2%"} }), nil, false},
 		{"missing-service", mod(func(c *Cfg) { c.Services[0].Args = []any{"@nope"} }), nil, false},
@@ -233,7 +238,7 @@ func init() {
 	Register(&Check{
 		ID:    "C10",
 		Level: "fault_enumeration",
-		Rule: "32 configuration / environment classes (valid, two files, file names with a comma / spaces / parentheses, YAML syntax error, YAML type errors whose message spans several lines (one file, nested, second file), shape error, grammar error(s), token errors, compile errors (must-getter without getter under default_must_getter, malformed @ / !value arguments), formatter error, missing parameter / service, cycle, scope, mixed output errors, version mismatch, file matched twice (the identical pattern repeated, glob repeated, three times, file + glob, ./ prefix, dirty path, glob + dirty path), missing input, only missing input, empty glob, invalid glob, input is a directory) x all 16 flag combinations (quiet, stub, ignore-missing-params, ignore-missing-services) x 5 output pre-states (absent, existing file with old mtime and 0600, directory, missing parent, same path as an input) " +
+		Rule: "34 configuration / environment classes (valid, two files, file names with a comma / spaces / parentheses, YAML syntax error, YAML type errors whose message spans several lines (one file, nested, second file), shape error, grammar error(s), token errors (several; a single unexpected token in a parameter / in an argument), compile errors (must-getter without getter under default_must_getter, malformed @ / !value arguments), formatter error, missing parameter / service, cycle, scope, mixed output errors, version mismatch, file matched twice (the identical pattern repeated, glob repeated, three times, file + glob, ./ prefix, dirty path, glob + dirty path), missing input, only missing input, empty glob, invalid glob, input is a directory) x all 16 flag combinations (quiet, stub, ignore-missing-params, ignore-missing-services) x 5 output pre-states (absent, existing file with old mtime and 0600, directory, missing parent, same path as an input) " +
 			"x injected file-system answers at every os.ReadFile / os.WriteFile / filepath.Glob call of internal/cmd/runner (EACCES, EIO, ErrBadPattern): all executions with <= 1 injected answer (quick) / <= 2 (thorough); plus the real binary's exit status for one representative of every class. non-trivial = a failure class, a non-absent pre-state or an injected fault; distinct = distinct (class, flags, pre-state, fault plan)",
 		Assumptions: []string{
 			"file-system answers are injected with go build -overlay (os.ReadFile, os.WriteFile, filepath.Glob in internal/cmd/runner rewritten to a shim); a write that fails after truncation is outside the statement's fault list and not injected",
